@@ -73,8 +73,12 @@ Default == [f \in Fields |->
   CASE f = "cred_net" -> "T" [] f = "ctx_net" -> "T" [] f = "time" -> "inside" [] f = "anchor" -> "ok" [] f = "pres_given" -> "same"
     [] f = "req_requested" -> "bh" [] f = "pres_requested" -> "filled" [] f = "crypto" -> "none" [] f = "claims" -> "one" [] f = "sources" -> "both"
     [] f = "issuers" -> "exact" [] f = "req_stmt" -> "same"]
-CryptoCommon == {"statement_swapped", "context_after", "proof_truncated", "pair_truncated", "network_after", "created_after", "material_other", "material_kind", "material_count", "issuer_after", "cred_id_after"}
-CryptoOf(kind) == CryptoCommon \cup (IF kind = "account" THEN {"material_issuer"} ELSE {"validity_after"})
+(* alterations of the presentation or of the verification material after proving.  "revealed_marker(_forged)": the proof of the first (equals) statement is replaced by the
+   marker "value already revealed" (and the claimed value by another one) - an account credential reveals nothing, an identity credential reveals the true value;
+   "extra_sharing_coeff": one more (neutral) commitment to a sharing coefficient than the revocation threshold of the identity credential *)
+CryptoCommon == {"statement_swapped", "context_after", "proof_truncated", "pair_truncated", "network_after", "created_after", "material_other", "material_kind", "material_count", "issuer_after", "cred_id_after",
+                 "revealed_marker_forged"}
+CryptoOf(kind) == CryptoCommon \cup (IF kind = "account" THEN {"material_issuer", "revealed_marker"} ELSE {"validity_after", "extra_sharing_coeff"})
 Alt(kind) == [f \in Fields |->
   CASE f = "cred_net" -> {"M"} [] f = "ctx_net" -> {"M"}
     [] f = "time" -> {"before", "start", "last", "end", "after"}
